@@ -981,3 +981,13 @@ from contracts import C02 as _c02   # noqa: E402
 class ParentReportedWithCommittedVersion(_c02.IncrementParentVersion):
     id = 'C04.parent_descriptor_reported_with_committed_version'
     prop = 'C04'
+
+
+@register
+class CommitAndNotificationInOneCriticalSection(_c02.TransactionManager):
+    id = 'C04.commit_and_notification_in_one_critical_section'
+    prop = 'C04'
+    doc = ('_transaction_manager (proved under C02, re-checked here because report order = commit order rests on it): the '
+           'commit and every publication of its result - the `transaction` observable the episodic reports are sent from '
+           'and the `rt_updates` observable of the waveform stream - happen while the transaction lock and mdib_lock are '
+           'held, so no other writer can commit or deliver between a commit and its report')
